@@ -8,7 +8,7 @@ from .common import Spec, Claims
 
 PROPERTY = "C20"
 BOUNDS = ("token soups over a 30-word vocabulary (keywords, operators, names, numerals, dotted quads, prefixes, truncated quads, empty "
-          "and whitespace tokens): ALL soups of <=2 tokens and a seeded sample of 3..4 (quick) / 3..5 (thorough) token soups, plus every "
+          "and whitespace tokens): ALL soups of <=2 tokens and a seeded sample of 150+150 (quick) / 500+500 (thorough) soups of 3 and 4 tokens (5-token soups were tried in the thorough tier: the run did not finish within 3 600 s and they were dropped), plus every "
           "truncation and 3 seeded permutations of 12 valid lines, given to 11 constructors on ios/nxos (Port/Protocol also asa) and - "
           "wrapped into sections - to acls/aces/addrgroups; every numeral is SYMBOLIC over [0, 2^40] (out-of-range octets, ports, "
           "sequence numbers all at once) except numerals that size a loop: operands of range (width <= 2), of gt/lt/neq (0..9 in a port "
@@ -158,7 +158,7 @@ SOUPS = []
 def _soups(tier, seed):
     rnd = random.Random(seed)
     out = [[]] + [[a] for a in VOCAB] + [[a, b] for a in VOCAB for b in VOCAB]
-    for n, cnt in ((3, 150), (4, 150)) if tier == "quick" else ((3, 800), (4, 800), (5, 400)):
+    for n, cnt in ((3, 150), (4, 150)) if tier == "quick" else ((3, 500), (4, 500)):
         for _ in range(cnt):
             out.append([rnd.choice(VOCAB) for _ in range(n)])
     for line in VALID:
